@@ -123,11 +123,11 @@ func genAndRun(c *hx.Ctx, w *world, i int) {
 		n = 7
 	}
 	p := roles(perm(c, n))
-	modes := []string{"clean", "async", "partition", "byz", "byz", "forge", "verified", "no-equivocation", "no-empty", "byz-async", "partition", "async"}
+	modes := []string{"clean", "async", "partition", "byz", "byz", "forge", "verified", "no-equivocation", "no-empty", "byz-async", "partition", "async", "crossover", "crossover"}
 	mode := modes[i%len(modes)]
 	nbyz := 0
 	switch mode {
-	case "clean", "async", "partition":
+	case "clean", "async", "partition", "crossover":
 	default:
 		nbyz = 1 + c.Intn(int(p.C))
 	}
@@ -152,6 +152,10 @@ func genAndRun(c *hx.Ctx, w *world, i int) {
 	}
 	if mode == "partition" {
 		genPartition(c, r, honest, i)
+		return
+	}
+	if mode == "crossover" {
+		genCrossover(c, r, honest, i)
 		return
 	}
 	timers := mode == "async" || mode == "byz-async" || mode == "byz" && c.Intn(2) == 0
@@ -268,4 +272,91 @@ func genPartition(c *hx.Ctx, r *runner, honest []uint32, i int) {
 		}
 	}
 	r.finish(c, fmt.Sprintf("partition/%d", i), false)
+}
+
+// genCrossover: HONEST ONLY, adversarial delivery and timers. Two proposals in one round: the
+// leader's proposal reaches only a subset, the second proposer's the rest (its back-off fired);
+// each group endorses and commits what it saw (proposal timeouts fire); then everything crosses
+// over, every node receiving the other group's proposals, endorsements and commitments in its own
+// order (half of the nodes newest first), with commit timeouts in between.
+func genCrossover(c *hx.Ctx, r *runner, honest []uint32, i int) {
+	nw := r.nw
+	p := nw.p
+	pa, pb := p.Proposers[0], p.Proposers[1]
+	group := map[uint32]int{pa: 0, pb: 1}
+	for _, n := range honest {
+		if _, ok := group[n]; !ok {
+			group[n] = c.Intn(2)
+		}
+	}
+	r.step(Event{Kind: "propose", Node: pa})
+	r.step(Event{Kind: "propose", Node: pb})
+	delivered := map[string]bool{}
+	next := func(node uint32, cross, newestFirst bool) bool {
+		idx := -1
+		for k, pk := range nw.net {
+			if pk.From == node || delivered[fmt.Sprintf("%d/%d", node, k)] {
+				continue
+			}
+			if !cross && group[pk.From] != group[node] {
+				continue
+			}
+			idx = k
+			if !newestFirst {
+				break
+			}
+		}
+		if idx < 0 {
+			return false
+		}
+		delivered[fmt.Sprintf("%d/%d", node, idx)] = true
+		r.step(Event{Kind: "net", Node: node, Pkt: idx})
+		return true
+	}
+	phase1 := 30 + c.Intn(90)
+	for s := 0; s < phase1; s++ {
+		node := honest[c.Intn(len(honest))]
+		switch x := c.Intn(100); {
+		case x < 40:
+			r.step(Event{Kind: "proc", Node: node})
+		case x < 72:
+			next(node, false, false)
+		case x < 84:
+			r.step(Event{Kind: "act", Node: node})
+		case x < 96:
+			r.step(Event{Kind: "timer", Node: node, Timer: 0})
+		default:
+			r.step(Event{Kind: "timer", Node: node, Timer: 1 + c.Intn(3)})
+		}
+	}
+	newest := map[uint32]bool{}
+	for _, n := range honest {
+		newest[n] = c.Intn(2) == 0
+	}
+	phase2 := 80 + c.Intn(80)
+	for s := 0; s < phase2; s++ {
+		node := honest[c.Intn(len(honest))]
+		switch x := c.Intn(100); {
+		case x < 40:
+			r.step(Event{Kind: "proc", Node: node})
+		case x < 76:
+			next(node, true, newest[node])
+		case x < 88:
+			r.step(Event{Kind: "act", Node: node})
+		case x < 94:
+			r.step(Event{Kind: "timer", Node: node, Timer: 3})
+		default:
+			r.step(Event{Kind: "timer", Node: node, Timer: c.Intn(2)})
+		}
+	}
+	for round := 0; round < 3; round++ {
+		for _, node := range honest {
+			for k := 0; k < 5; k++ {
+				r.step(Event{Kind: "proc", Node: node})
+			}
+			r.step(Event{Kind: "timer", Node: node, Timer: 3})
+			r.step(Event{Kind: "act", Node: node})
+		}
+	}
+	r.finish(c, fmt.Sprintf("crossover/%d", i), false)
 }
